@@ -38,7 +38,9 @@ RULE = ('request targets: all sequences of <= 4 (thorough: 6 sampled) tokens ove
 TOKENS = [b'/', b'.', b'..', b'%2e', b'%2E', b'%2f', b'%5c', b'\\', b'%25', b'%c0%ae', b'%252e', b';', b'a', b'b', b'*']
 HOSTS = [b'example.com', b'EXAMPLE.com:8080', b'127.0.0.1', b'127.0.0.1:81', b'[::1]', b'[2001:db8::1]:8443', b'h:0', b'h:65536', b'h:99999999999', b'', b'a b', b'h:', b'[::1', b'1.2.3', b'under_score', b'h,i', None, b'x:y', b'-', b'h.:80', b'example.com]', b'[[::1]]', b'[example.com:81', b']example.com[', b'[::1]]:80', b'[h', b'h]:80', b'[1.2.3.4]',
 	# what lenient address parsers accept: short and non-decimal forms, text after the address
-	b'1.2.3.4 evil.example', b'1.2.3.4\tx', b'1.2.3.4 /../..', b'1.2.3.4 :80', b'127.1', b'0x7f.1', b'0x7f.0.0.1', b'017700000001', b'2130706433', b'1.2.3.4.', b'1.2.3.04', b'1.2.3.256', b'1.2.3.4:80 x', b'::1', b'[::1] x', b'[::1%25eth0]', b'[::ffff:1.2.3.4]', b'[::ffff:1.2.3.4 x]', b'h\x0b', b'h\x7f', b'h\xa0', b'h%20x', b'h%', b'h?x', b'h#x', b'h?', b'#', b'h/x', b'u@h', b'h\\x', b'a?b/../c', b'h#@evil', b'h|x', b'h`x', b'h\x00', b'h\x1f']
+	b'1.2.3.4 evil.example', b'1.2.3.4\tx', b'1.2.3.4 /../..', b'1.2.3.4 :80', b'127.1', b'0x7f.1', b'0x7f.0.0.1', b'017700000001', b'2130706433', b'1.2.3.4.', b'1.2.3.04', b'1.2.3.256', b'1.2.3.4:80 x', b'::1', b'[::1] x', b'[::1%25eth0]', b'[::ffff:1.2.3.4]', b'[::ffff:1.2.3.4 x]', b'h\x0b', b'h\x7f', b'h\xa0', b'h%20x', b'h%', b'h?x', b'h#x', b'h?', b'#', b'h/x', b'u@h', b'h\\x', b'a?b/../c', b'h#@evil', b'h|x', b'h`x', b'h\x00', b'h\x1f',
+	# a percent sign in the field is data (the Host field has no escapes): written down, the effective URI must still name this host
+	b'example.com%3a8080', b'user%40example.com', b'exa%6dple.com', b'100%25', b'example.com%2fadmin', b'h%23f:81', b'h%3fq']
 
 
 import re as _re0
@@ -193,6 +195,19 @@ def oracle(case):
 				hh = hh[1:-1]
 			if u.host.lower().strip(u'[]') != hh:
 				bad.append('host %r is not the Host field\'s %r' % (u.host, hh))
+			# written down and read again (independent RFC 3986 appendix B split + percent-decoding), the effective URI names the same host
+			if not bad and not hh.startswith(u'[') and u.path != u'*' and all(ord(c) < 0x80 for c in hh):      # (the asterisk form has no written form of its own; non-ASCII hosts are written through the idna codec, which maps characters)
+				try:
+					import rfc3986 as _r
+					from urllib.parse import unquote_to_bytes as _unq
+					_ts, _ta, _tp, _tq, _tf = _r.split(bytes(u).decode('latin-1'))
+					if _ta is not None:
+						_h = _ta.rpartition(u'@')[2]
+						_h = _re0.sub(u':[0-9]*$', u'', _h)
+						if (u'@' in _ta) or _unq(_h).decode('latin-1').lower().strip(u'[]') != hh:
+							bad.append('the effective URI is written %r: read again its authority %r does not name the Host field\'s host %r' % (bytes(u), _ta, hh))
+				except Exception as e:
+					bad.append('composing the effective URI raised %s' % exc_name(e))
 			exp_port = int(pp) if pp and int(pp) else {u'http': 80, u'https': 443}[u.scheme]
 			if u.port != exp_port:
 				bad.append('port %r, Host field says %r' % (u.port, exp_port))
